@@ -17,6 +17,7 @@ CONFIGS = [
 def setup(src):
     e2v.build_harness("h_file", src)
     e2v.build_driver("filespec", ["theories/FileIO/FileSpec.vo"], ["filespec_model"])
+    e2v.build_driver("filebuf", ["theories/FileIO/FileBuf.vo"], ["filebuf_model"])
 
 
 def gen_ops(r, bs, nfiles, nops, inline, inline_sz=False):
@@ -131,6 +132,9 @@ def execute(src, hexe, mexe, name, opts, ops, idx):
     # simpler: one session does everything
     hl = ["OPEN " + img] + ["NEW file%d" % f for f in range(nfiles)]
     ml = ["N %d" % bs]
+    bl = ["N %d" % bs]          # the buffer model (FileBuf.v) gets the same history
+    cur = {f: 0 for f in range(nfiles)}
+    rsize = {f: 0 for f in range(nfiles)}
     expect = []     # (index in harness output, kind)
     for f in range(nfiles):
         hl.append("FO %d @INO%d" % (f, f))
@@ -147,6 +151,32 @@ def execute(src, hexe, mexe, name, opts, ops, idx):
                 hl.append(h)
         if mline:
             ml.append(mline)
+            t = mline.split()
+            ff = int(t[1])
+            if t[0] == "W":
+                bl.append(mline)
+                n_ = len(t[3]) // 2 if len(t) > 3 else 0
+                cur[ff] = int(t[2]) + n_
+                if n_:
+                    rsize[ff] = max(rsize[ff], cur[ff])
+            elif t[0] == "R":
+                cur[ff] = max(int(t[2]), min(int(t[2]) + int(t[3]), rsize[ff]))
+            elif t[0] == "Z":
+                bl.append("Z %d %d %s" % (ff, cur[ff], t[2]))
+                rsize[ff] = int(t[2])
+            elif t[0] == "P":
+                bl.append(mline)
+                cur[ff] = 0
+        else:
+            for h in hls:
+                if h.startswith("FL"):
+                    bl.append("FL %s" % h.split()[1])
+                elif h.startswith("REOPEN"):
+                    bl.append("RO %s" % h.split()[1])
+                    cur[int(h.split()[1])] = 0
+    for f in range(nfiles):
+        bl.append("M %d 64" % f)
+        bl.append("D %d" % f)
     for f in range(nfiles):
         hl.append("S %d 0" % f)
         hl.append("GS %d" % f)
@@ -167,6 +197,8 @@ def execute(src, hexe, mexe, name, opts, ops, idx):
     p = subprocess.run([hexe], input=text.encode(), stdout=subprocess.PIPE, stderr=subprocess.PIPE, timeout=600)
     hout = p.stdout.decode().split("\n")
     mout = subprocess.run([mexe], input=("\n".join(ml) + "\n").encode(), stdout=subprocess.PIPE, timeout=900).stdout.decode().split("\n")
+    bexe = os.path.join(os.path.dirname(os.path.dirname(mexe)), "filebuf", "filebuf.exe")
+    bout = subprocess.run([bexe], input=("\n".join(bl) + "\n").encode(), stdout=subprocess.PIPE, timeout=900).stdout.decode().split("\n") if (not inline and (idx >= 7000 or idx % 4 == 0)) else []
     problems = []
     recipe = {"config": name, "mke2fs": opts, "ops": [m for _, m in ops if m][:60], "all_ops": [[h, m] for h, m in ops], "case_index": idx}
     if p.returncode != 0:
@@ -204,10 +236,21 @@ def execute(src, hexe, mexe, name, opts, ops, idx):
             try:
                 fs = Fs(img)
                 finals = [bytes.fromhex(l[2:].strip()) for l in mout if l.startswith("D ")]
+                bmaps = [l for l in bout if l.startswith("M")]
+                bcont = [l for l in bout if l.startswith("D ")]
                 for f in range(nfiles):
                     data = fs.file_data(inos[f])
                     if data != finals[f]:
                         problems.append("file%d on disk (%d bytes) differs from the reference (%d bytes)" % (f, len(data or b""), len(finals[f])))
+                    # the buffer model: same content, and the same set of mapped logical blocks
+                    if f < len(bcont) and bytes.fromhex(bcont[f][2:].strip()) != finals[f]:
+                        problems.append("buffer model content of file%d differs from the reference" % f)
+                    if f < len(bmaps):
+                        want = sorted(int(x) for x in bmaps[f].split()[1:])
+                        m_, _ = fs.file_map(inos[f], fs.inode(inos[f]))
+                        have = sorted(l for l in m_ if l < 64)
+                        if have != want:
+                            problems.append("file%d: mapped logical blocks %s, the buffer model maps %s" % (f, have[:20], want[:20]))
             except (FormatError, struct.error) as ex:
                 problems.append("independent reader: %s" % ex)
     if os.path.exists(img):
@@ -298,6 +341,7 @@ def run(res, replay=None):
     res.add_proof(pr)
     hexe = e2v.build_harness("h_file", src)
     mexe = e2v.build_driver("filespec", ["theories/FileIO/FileSpec.vo"], ["filespec_model"])
+    e2v.build_driver("filebuf", ["theories/FileIO/FileBuf.vo"], ["filebuf_model"])
     res.cov["trusted_base"] = e2v.TRUSTED_COMMON + [
         "harness/h_file.c drives ext2fs_file_open/write/read/llseek/set_size2/flush/close and ext2fs_punch",
         "lib/extfmt.py file_data(): the check's own reading of the final file contents",
